@@ -1,5 +1,6 @@
 import AndaVerif.Props.C02
 import AndaVerif.Props.C10
+import AndaVerif.Model.CollQuery
 /-
 C02 ↔ C10: the per-index posting relation of the collection model is what C10 proves of the real
 B-tree.
@@ -546,11 +547,37 @@ theorem index_is_c10_btree (u : Bool) (ops : List BOp) :
   · rw [hs.2]
     exact (outsEquiv_err _ _ (C10.api_refines_omap u _ hd)).symm
 
-/-- a `RangeQuery` over integer keys as the key predicate of C02's `btQuery` (a tuple key belongs to
-a multi-field index, which only answers `Eq` on its byte key) -/
-def liftQ (q : RQ Int) : Key → Bool
-  | .s k => q.matches k
-  | .t _ => false
+/-- **The public filter path answers exactly from the stored documents.** `fieldFilter` is the model of
+`Filter::Field((name, query))` that the driver executes and the harness compares with
+`query_all_ids` on every generated `q` line (`Model/CollQuery.lean`; `liftQ q` is the shared
+`RangeQuery` denotation `RQ.matches`): in every reachable state its answer
+contains exactly the live documents with a stored key the query accepts; an unknown index name is
+an error, never an empty answer. -/
+theorem fieldFilter_exact (schema : List (Nat × FieldDef)) (ops : List Op) (name : Nat) (q : RQ Int) (ids : List Nat)
+    (h : fieldFilter (run (init schema) ops) name q = some ids) :
+    ∃ x ∈ (run (init schema) ops).ix.bt, x.1.name = name ∧ ∀ i, i ∈ ids ↔
+      i ∈ (run (init schema) ops).ids ∧
+        ∃ d, lookupD (run (init schema) ops).docs i = some d ∧ ∃ k ∈ (valueOf x.1 d).keys, liftQ q k = true := by
+  unfold fieldFilter at h
+  split at h
+  · cases h
+  · rename_i x hx
+    simp only [Option.some.injEq] at h
+    subst h
+    have hm := List.mem_of_find?_eq_some hx
+    have hn := List.find?_some hx
+    refine ⟨x, hm, by simpa using hn, fun i => ?_⟩
+    rw [List.mem_eraseDups]
+    exact range_filter_exact schema ops x hm (liftQ q) i
+
+theorem fieldFilter_unknown_index (s : State) (name : Nat) (q : RQ Int)
+    (h : ∀ x ∈ s.ix.bt, x.1.name ≠ name) : fieldFilter s name q = none := by
+  unfold fieldFilter
+  have : s.ix.bt.find? (fun x => x.1.name == name) = none := by
+    rw [List.find?_eq_none]
+    intro x hx
+    simpa using h x hx
+  rw [this]
 
 /-- **C02's filter answers are the verified scan's answers.** Whenever the collection model's relation
 and a well-formed C10 index hold the same pairs (which `index_is_c10_btree` and `C10.api_WF` give for
